@@ -1,7 +1,7 @@
 """C17: OpenCL kernels compute the CPU semantics and are free of work-item races."""
 import struct, math
 from ..common import *
-from ..gatecases import coq_op, placements, rand_params, GATE_IMPORTS
+from ..gatecases import coq_op, placements, rand_params, GATE_IMPORTS, NPARAMS
 
 TRUSTED = [
     "Coq 8.16.1 kernel; vm_compute only to RUN the kernel models (emulated binary32) and the comparisons on the cases",
@@ -89,6 +89,18 @@ def gen_cases(ctx):
                 else: ts, rest = qs[:1], qs[1:]
                 cs = rng.sample(rest, min(len(rest), rng.choice([0, 1, 2, 3])))
                 add(kind, n, ts, cs, special=(rng.random() < 0.2))
+    # angles far beyond one turn: cos/sin must be taken in double precision and only then narrowed to binary32
+    # (narrowing the angle first loses |angle| * 2^-24 radians of phase)
+    for kind in GPU_KINDS:
+        k = NPARAMS.get(kind, 0)
+        if kind == "U2" or not k: continue
+        for big in ([1000.1, -98765.4321] if not ctx.thorough() else [1000.1, 12345.678, -98765.4321, 1000000.3]):
+            n = rng.choice([2, 3, 4])
+            pl = placements(n, kind)
+            ts, cs = rng.choice(pl)
+            params = [float2bits(big * (1 + 0.37 * i)) for i in range(k)]
+            cases.append({"op": "gpu_gate", "kind": kind, "params": params, "n": n, "ts": list(ts), "cs": list(cs),
+                          "v": rand_vec32(rng, n, "normalised"), "orders": orders, "thr": 10})
     return cases
 
 def oracle32(kind, oracle):
